@@ -230,9 +230,6 @@ func (c *Ctx) runFormatBatch(k fmtKind, inputs []string, st *fmtStats, tame ...b
 	}
 }
 
-// rootKindInputs: sources whose query root is not an object type.
-var rootKindInputs = []string{`scalar Query`, `enum Query { A }`, `type A { x: Int } union Query = A`}
-
 var preludeExtRe = regexp.MustCompile(`extend\s+(type|scalar|enum|interface|input|union)\s+(__\w+|String|Int|Float|Boolean|ID)\b`)
 
 func dropBuiltinCfgs(outs string, cfgs []string) string {
@@ -480,9 +477,11 @@ var fmtMinimalS = []string{
 	`directive @d on SCHEMA schema @d { query: Query } type Query { f: Int }`, // directives, default roots
 	`directive @d on SCHEMA type Query { f: Int } extend schema @d`,
 	`type Query { f: Int } extend type Query { g: Int }`,
-	// a query root that is not an object type (the recorded C07 finding) gets __schema/__type, which the formatter hides but still brackets
-	// (after the repair "a root operation type must be an object type" these no longer load; kept as inputs
-	// that must be REJECTED by the loader: see rootKindInputs)
+	// a query root that is not an object type: REJECTED by the loader since the repair "a root operation type must be
+	// an object type" (before it the root got __schema/__type, which the formatter hides but still brackets)
+	`scalar Query`,
+	`enum Query { A }`,
+	`type A { x: Int } union Query = A`,
 	// an extension of a type of the prelude: FormatSchema skips built-in types altogether
 	`type Query { a: Int } extend type __Type { extra: Int }`,
 	`type Query { a: Int } directive @x on SCALAR extend scalar String @x`,
